@@ -88,7 +88,7 @@ def trial(cfg):
         elif c[2] == 'trig': w.connect(ents[a], ents[b], ('po', 'ti'))                      # triggering connection
         else: w.connect(ents[a], ents[b], ('po', 'ti'), time_shifted=c[3])                 # 'trig_ts': time-shifted triggering connection
     for i, s in enumerate(cfg['sims']):
-        if s.get('typ') == 'event-based' and s.get('initial', True): w.set_initial_event(f'S{i}', 0)
+        if s.get('typ') == 'event-based' and s.get('initial', True): w.set_initial_event(f'S{i}', s.get('initial_at', 0))
     real = sched.perf_counter; sched.perf_counter = loop.time
     msgs = []; hid = logger.add(lambda m: msgs.append(str(m)), level='WARNING')
     real_check = sched.rt_check
@@ -132,7 +132,7 @@ def monitor(cfg, r):
     begins = [(l[0], l[1], l[2], l[3] - T0) for l in r['log'] if l[0] == 'BEGIN']
     for _, sid, t, c in begins:
         if t > 0 and not c > rr * (t - 1): bad.append(f'{sid} began its step for t={t} at {c}s, not after rt_factor*time_resolution*(t-1) = {rr * (t - 1)}s')
-    instant = all(not s.get('duration') for s in cfg['sims'])
+    instant = all(not s.get('duration') and not s.get('durations') for s in cfg['sims'])
     if instant:
         # with instantly answering simulators a step for t begins inside its slot, or at most one polling period per
         # simulator late (known finding F20 is "one polling period late"; anything beyond that is a different failure)
@@ -240,6 +240,13 @@ def configs(tier, rng):
         for strict in (False, True):
             out.append(dict(rt=rt, res=1.0, until=6, strict=strict, sims=[{'silent': True, 'gd_durations': {'2': rt * 0.5}}, sink], connect=[(0, 1, 'trig')]))
             out.append(dict(rt=rt, res=1.0, until=7, strict=strict, sims=[{'silent': True, 'step_size': 2, 'gd_durations': {'2': rt * 0.75, '4': rt * 1.75}}, sink], connect=[(0, 1, 'trig')]))
+    for rt in rts:
+        # a successor that polls for its (initial) step at 1 while a slow ancestor holds its progress back, next to a fast
+        # predecessor that waits (lazily) for the same progress value of that successor: both waits concern the same time
+        slow = {'durations': {'0': rt * 3.5}}
+        late = {'typ': 'event-based', 'self_steps': False, 'initial_at': 1}
+        out.append(dict(rt=rt, res=1.0, until=4, strict=False, sims=[{}, slow, late], connect=[(0, 2, 'trig'), (1, 2, 'trig')]))
+        out.append(dict(rt=rt, res=1.0, until=5, strict=False, sims=[{'silent': True}, slow, dict(late, initial_at=2)], connect=[(0, 2, 'trig'), (1, 2, 'trig')]))
     for evs in ([2], [4], [9], [3, 7]):
         # set_event outside real-time mode is an error - whatever the requested time (before, at or after until)
         out.append(dict(rt=None, res=1.0, until=4, strict=False, sims=[{'typ': 'event-based', 'self_steps': False, 'events': {'0': evs}}, {}], connect=[]))
